@@ -225,3 +225,34 @@ func HarnessC14WS() {
 	vAssert(established == 0 && finished == 0, "c14:ws-no-callbacks-for-failed-handshake")
 	vAssert(vThreadsLive() <= 0, "c14:ws-no-goroutine-left")
 }
+
+// HarnessC13WSFinishWhileSending: the server ends a session (FinishSession, the way Server.Close does
+// for every session) while an application goroutine's send on that session is stuck in the socket (the
+// client is not reading). Both calls return, nothing panics, the connection is released.
+func HarnessC13WSFinishWhileSending() {
+	conn := newVhBlockConn()
+	t := vhNewWS(conn)
+	sc := NewServerChannel(t, 1, Node{Identity{"postmaster", "srv"}, "s1"}, vhSID)
+	sc.setState(SessionStateEstablished)
+	sendDone := false
+	var sendErr error
+	go func() {
+		ctx, cancel := context.WithTimeout(context.Background(), 200*time.Millisecond)
+		defer cancel()
+		sendErr = sc.SendMessage(ctx, vhEnvelopeOfKind(0, "m").(*Message))
+		sendDone = true
+	}()
+	vQuiesce() // the sender is inside its blocked write
+	ctx, cancel := context.WithTimeout(context.Background(), 100*time.Millisecond)
+	defer cancel()
+	ferr := sc.FinishSession(ctx)
+	if ferr != nil {
+		_ = sc.Close() // what Server.handleChannel does
+	}
+	vSettle()
+	vReach("c13:ws-finish-while-sending-returned")
+	vAssert(sendDone, "c13:ws-blocked-send-returns")
+	vAssert(sendErr != nil, "c13:ws-blocked-send-fails")
+	vAssert(!t.Connected(), "c13:ws-connection-released")
+	vAssert(vThreadsLive() <= 0, "c13:ws-no-goroutine-left-behind")
+}
